@@ -185,8 +185,13 @@ func runOverrun(w *World, rs *RunSpec) {
 		fresh := GenPlan(c, 60, GenOpts{Shapes: []int{ShapeUnary}, SmallOnly: true, NoMD: true})
 		fresh.Role = "raw"
 		flooded := false
+		// The window in the settings is the raw server's own (what the client
+		// may send); it says nothing about the window the client announced for
+		// the responses, which stays 64 KiB and is what the flood overruns.
+		setWin := Pick(c, "setwin", uint32(W), uint32(W), uint32(1<<20), uint32(1<<24), uint32(8192))
+		w.Desc["settings_window"] = setWin
 		script := func(rsv *RawServer) {
-			rsv.Send(SSettings(-1, W, tunnelpb.ProtocolRevision_REVISION_ZERO, tunnelpb.ProtocolRevision_REVISION_ONE))
+			rsv.Send(SSettings(-1, setWin, tunnelpb.ProtocolRevision_REVISION_ZERO, tunnelpb.ProtocolRevision_REVISION_ONE))
 			served := map[int64]bool{}
 			for {
 				progressed := false
